@@ -19,7 +19,7 @@ NAMES=$(grep -rhoE "^func (Test[A-Za-z0-9_]+)" $OUT --include=*_test.go | sed 's
 run_demo() { (cd $WT && timeout 900 go test -vet=off -count=1 -run "^(${NAMES})\$" ./... 2>&1 | grep -E "^(--- FAIL|FAIL|ok|panic)" | grep -v "no test files" | head -12); }
 echo "== demo WITHOUT the change (must pass): tests $NAMES"; run_demo | tee /tmp/mut/demo_before_$ID.log | grep -E "FAIL|panic" | head -5; grep -q -E "FAIL|panic" /tmp/mut/demo_before_$ID.log && echo "DEMO-BEFORE: FAILS (unexpected)" || echo "DEMO-BEFORE: passes"
 echo "== apply patch"; (cd $WT && git apply $OUT/patch.diff) || { echo "PATCH DOES NOT APPLY"; exit 3; }
-echo "== build + baseline WITH the change"; /tmp/mut/run_baseline.sh $WT | tail -3
+echo "== build + baseline WITH the change"; /verif/run_baseline.sh $WT | tail -3
 echo "== demo WITH the change (must fail)"; run_demo | tee /tmp/mut/demo_after_$ID.log | grep -E "^--- FAIL" | head -4; grep -q -E "FAIL|panic" /tmp/mut/demo_after_$ID.log && echo "DEMO-AFTER: fails (as required)" || echo "DEMO-AFTER: PASSES (unexpected)"
 echo "== check $ID $TIER against /repo with the change"
 git -C /repo apply $OUT/patch.diff || { echo "cannot apply to /repo"; exit 4; }
